@@ -246,9 +246,16 @@ def run_bytes(ns, res, tier, sample_idx, policies):
 def run_random_long(ns, res, rng, count):
     """Longer random texts, random partitions, random chunk sizes, both text and byte level."""
     alpha = ['a', 'b', '"', '"', ',', ',', '\n', '\r', '\r\n', '#', ' ', 'é', '€', '😀', '""']
-    for _ in range(count):
-        text = ''.join(rng.choice(alpha) for _ in range(rng.randrange(5, 80)))
-        policy = rng.choice(POLICIES)
+    # characters that str.splitlines() treats as line boundaries but the CSV dialect does not (only LF, CR, CRLF end a line)
+    odd = ['\x0b', '\x0c', '\x1c', '\x1d', '\x1e', '\x85', '\u2028', '\u2029']
+    for n_ in range(count):
+        if n_ % 4 == 3:
+            # a quoted_rfc cell that runs over many physical lines (8-16), some of them holding such characters, between ordinary records
+            lines = [''.join(rng.choice(['a', 'b', ' ', ',', 'é'] + odd) for _ in range(rng.randrange(0, 5))) for _ in range(rng.randrange(8, 17))]
+            text = 'x,y' + rng.choice(['\n', '\r\n']) + 'k,"' + rng.choice(['\n', '\r\n', '\r']).join(lines) + '",z' + rng.choice(['\n', '']) + rng.choice(['', 'p,q\n'])
+        else:
+            text = ''.join(rng.choice(alpha + (odd if n_ % 2 else [])) for _ in range(rng.randrange(5, 80)))
+        policy = rng.choice(POLICIES) if n_ % 4 != 3 else rng.choice(['quoted_rfc', 'quoted_rfc', 'quoted'])
         comment = rng.choice([None, '#', '#a'])
         header = rng.random() < 0.3
         cfg = (policy, comment, header)
